@@ -236,6 +236,29 @@ def tlc_validate(scratch, module, cfg, lines, chunk=None, procs=None, heap_mb=15
     return bad, dict(generated=gen, distinct=dist, procs=len(jobs))
 
 
+def apalache_check(scratch, module, init, inv, length, cinit, expect_violation=False, timeout=600):
+    """Symbolic check with Apalache (bounded by `length`): used for inductive invariants
+    (--init=<arbitrary state satisfying the invariant> --length=1). Returns seconds taken.
+    Infra if Apalache cannot be run or the outcome is not the expected one... the latter is a broken
+    model, not a verdict about the code."""
+    d = scratch.specdir("apa-%s-%s-%s-%d" % (module, inv, cinit, length))
+    t0 = time.time()
+    try:
+        p = subprocess.run(["apalache-mc", "check", "--init=" + init, "--inv=" + inv, "--length=%d" % length, "--cinit=" + cinit,
+                            "--out-dir=" + os.path.join(d, "_apalache-out"), module + ".tla"],
+                           cwd=d, stdout=subprocess.PIPE, stderr=subprocess.STDOUT, text=True, timeout=timeout)
+    except (OSError, subprocess.TimeoutExpired) as e:
+        raise Infra("apalache-mc could not be run to completion: %s" % e)
+    out = p.stdout
+    ok = "The outcome is: NoError" in out
+    bad = "The outcome is: Error" in out and "violated" in out
+    if not ok and not bad:
+        raise Infra("apalache-mc: no outcome for %s %s: %s" % (module, inv, out[-600:]))
+    if ok == expect_violation:
+        raise Infra("apalache-mc: %s/%s with %s was expected to %s" % (module, inv, cinit, "be violated" if expect_violation else "hold"))
+    return time.time() - t0
+
+
 def run_harness(binary, args, timeout=900, env=None, stdin=None):
     e = dict(os.environ)
     if env:
